@@ -13,7 +13,7 @@ from props import xargs_common as xc
 RULE = ("(pattern AST, syntax, case flag, path) cases: ASTs to depth 4 over {a b c / .} with alternation in both orders, each printed for emacs, "
         "posix-basic (ed, sed), posix-extended and grep; non-trivial = distinct (pattern, syntax) pair containing alternation, a repetition or a bracket")
 ASSUMPTIONS = [
-    "Oniguruma on the anchored pattern (P)$ is a complete backtracking search (the model of the repaired code); its syntax tables per -regextype are exercised through the printers, not modelled",
+    "Oniguruma on the anchored pattern (P)\\' (end of text) is a complete backtracking search (the model of the repaired code); its syntax tables per -regextype are exercised through the printers, not modelled",
 ]
 TYPES = ["emacs", "posix-basic", "posix-extended", "grep", "ed", "sed"]
 TYPE_ID = {"emacs": 0, "grep": 1, "posix-basic": 2, "ed": 2, "sed": 2, "posix-extended": 3}
@@ -213,19 +213,30 @@ def scoping(ctx, forest, paths):
 
 
 def known(ctx, forest):
-    """a path ending in a newline: the end anchor '$' alone would also match before the final newline, but
-    Regex::is_match additionally demands that the match spans the whole string, so there is no residual finding"""
+    """paths containing a newline: an end anchor that also accepts the position before a final newline ('$') lets the first
+    alternative succeed on a proper prefix; the repaired code anchors with the end-of-text operator instead.  Only literal
+    newlines are used ('.' and negated brackets on a newline differ between the syntaxes and the property leaves them open)."""
     d = os.path.join(forest.dir, b"nl")
     os.mkdir(d)
-    open(os.path.join(d, b"a\n"), "wb").close()
-    for pat, want in ((b".*/a", []), (b".*/a.", [b"nl/a\n"])):
-        line = "find - %s %s" % (fw.hexs(forest.dir), xc.hexlist([b"nl", b"-regextype", b"posix-extended", b"-regex", pat, b"-print0"]))
-        code, out, err = wc.decode_find(xc.run_impl([line])[0])
-        got = out.split(b"\0")[:-1]
-        ctx.count(("final-newline", pat), True, "final-newline")
-        if got != want:
-            ctx.violation("find nl -regextype posix-extended -regex %r matched %r, expected %r" % (pat, got, want),
-                          {"property": "C17", "kind": "final-newline", "pattern": pat.decode(), "matched": [fw.hexs(x) for x in got]})
+    for n in (b"a\n", b"a", b"a\nb", b"\n"):
+        open(os.path.join(d, n), "wb").close()
+    cases = [("posix-extended", b".*/a", [b"nl/a"]), ("posix-extended", b"nl/a\n", [b"nl/a\n"]),
+             ("posix-extended", b"nl/(a|a\n)", [b"nl/a", b"nl/a\n"]), ("posix-extended", b"nl/(a\n|a)", [b"nl/a", b"nl/a\n"]),
+             ("posix-extended", b"nl/(a|a\n)b?", [b"nl/a", b"nl/a\n", b"nl/a\nb"]),
+             ("emacs", b"nl/\\(a\\|a\n\\)", [b"nl/a", b"nl/a\n"]), ("grep", b"nl/\\(a\\|a\n\\)", [b"nl/a", b"nl/a\n"]),
+             ("emacs", b"nl/\\(\n\\|a\\|a\nb\\|a\n\\)", [b"nl/\n", b"nl/a", b"nl/a\n", b"nl/a\nb"]),
+             ("posix-basic", b"nl/a\n\\{0,1\\}", [b"nl/a", b"nl/a\n"]), ("posix-extended", b"nl/a\n?", [b"nl/a", b"nl/a\n"])]
+    for ty, pat, want in cases:
+        for flag in (b"-regex", b"-iregex"):
+            line = "find - %s %s" % (fw.hexs(forest.dir), xc.hexlist([b"nl", b"-regextype", ty.encode(), flag, pat, b"-print0"]))
+            code, out, err = wc.decode_find(xc.run_impl([line])[0])
+            got = sorted(out.split(b"\0")[:-1])
+            ctx.count(("newline", ty, pat, flag), True, "newline-in-path")
+            if got != sorted(want) or code != 0:
+                ctx.violation("find nl -regextype %s %s %r matched %r, the language contains %r" % (ty, flag.decode(), pat, got, sorted(want)),
+                              {"property": "C17", "kind": "newline-in-path", "regextype": ty, "pattern": pat.decode(), "matched": [fw.hexs(x) for x in got],
+                               "language": [fw.hexs(x) for x in sorted(want)],
+                               "explain": "regardless of the order in which alternatives are written: the whole path, final newline included, must be consumed"})
 
 
 def replay(ctx, rep):
